@@ -436,7 +436,7 @@ def s_var(policies, seed=0, max_n=3):
                                            f"p={pk}")
 
 
-def s_closed(policies, seed=0):
+def s_closed(policies, seed=0, flags_extra=None, tag_extra=""):
     for n in (1, 2, 3):
         names = names_for(n, seed)
         for edges in dag_shapes(n):
@@ -450,8 +450,9 @@ def s_closed(policies, seed=0):
                             wl = workload_from_dag(names, edges, strategies, rel, sl)
                             for pk, pf in policies.items():
                                 yield mk_world(
-                                    wl, CLUSTERS_CPU[ck], pf, seed, tape=[],
-                                    tag=f"S-closed n={n} e={edges} conc={conc} "
+                                    wl, CLUSTERS_CPU[ck], dict(pf, **(flags_extra or {})),
+                                    seed, tape=[],
+                                    tag=f"S-closed{tag_extra} n={n} e={edges} conc={conc} "
                                         f"inv={inv} c={ck} sl={sl} p={pk}")
 
 
@@ -517,6 +518,8 @@ def s_adv(seed=0, max_n=3, bound=2, cap=1500, modes=None, clusters=("1x1", "2p")
                             fl["retract_schedules"] = True
                         if mode.get("rtg"):
                             fl["release_taskgraphs"] = True
+                        if mode.get("drop"):
+                            fl["drop_skipped_tasks"] = True
                         yield mk_world(
                             wl, CLUSTERS_CPU[ck], fl, seed, tape=[],
                             tag=f"S-adv n={n} e={edges} c={ck} r={rk} m={mk}"
